@@ -204,7 +204,7 @@ func presetValue(g *gocql.VerifStreams, w string) (uint64, bool) {
 // runSmon runs the ops (g, c<id>, a, G<cnt>) on the real generator and judges every answer by the abstract
 // specification (a set of handed-out ids kept HERE, independent of the code): an id handed out is in
 // 1..NumStreams-1 and was free; GetStream fails only when every non-reserved id is handed out; Clear reports
-// whether the id was handed out (index panic beyond the capacity); Available() = NumStreams-1-#handed out after
+// whether the id was handed out (false, nothing changes, for anything outside 0..cap-1: beyond the capacity, negative); Available() = NumStreams-1-#handed out after
 // every op. `n/a` if Clear(0) is among the ops (excluded case).
 func runSmon(proto int, toks []string) (res string) {
 	for _, w := range toks {
@@ -212,9 +212,6 @@ func runSmon(proto int, toks []string) (res string) {
 			if id, err := strconv.Atoi(w[1:]); err == nil && id == 0 {
 				return "n/a"
 			}
-		}
-		if strings.HasPrefix(w, "n") { // Clear of a negative id: excluded case (proposed finding KF-C08-3)
-			return "n/a"
 		}
 	}
 	g := gocql.VerifStreamsNew(proto)
@@ -285,6 +282,17 @@ func runSmon(proto int, toks []string) (res string) {
 					return v
 				}
 			}
+		case strings.HasPrefix(w, "n"): // Clear(-k): not an id of the generator: false, nothing changes
+			kk, err := strconv.Atoi(w[1:])
+			if err != nil || kk < 1 {
+				return "bad-op"
+			}
+			if a := doClear(g, -kk); a != "F" {
+				return fail(fmt.Sprintf("Clear-minus-%d-answered-%s", kk, a))
+			}
+			if v := checkAvail(); v != "" {
+				return v
+			}
 		case strings.HasPrefix(w, "c"):
 			id, err := strconv.Atoi(w[1:])
 			if err != nil || id < 0 {
@@ -292,8 +300,8 @@ func runSmon(proto int, toks []string) (res string) {
 			}
 			a := doClear(g, id)
 			switch {
-			case id >= capN:
-				if a != "crash:index" {
+			case id >= capN: // not an id of the generator: false, nothing changes (KF-C08-3, repaired)
+				if a != "F" {
 					return fail(fmt.Sprintf("Clear-%d-beyond-capacity-answered-%s", id, a))
 				}
 			case a == "T" && held[id]:
@@ -525,10 +533,8 @@ func (ls *lockstep) clear(t, id int) string {
 	case "crash:negative":
 		ls.rel[id]++                          // the bit was cleared and the counter decremented before the panic
 		ls.negPanic = append(ls.negPanic, id) // judged by the scheduler, after the bookkeeping of this decision
-	case "crash:index":
-		if id < ls.capN {
-			ls.monitor += fmt.Sprintf(" MONITOR:index-panic-in-Clear-%d", id)
-		}
+	case "crash:index": // no argument of Clear may panic (KF-C08-3, repaired)
+		ls.monitor += fmt.Sprintf(" MONITOR:index-panic-in-Clear-%d", id)
 	default:
 		ls.monitor += fmt.Sprintf(" MONITOR:Clear-%d-%s", id, ret)
 	}
@@ -1273,6 +1279,8 @@ func genSmon(r *vh.Rng, out *vh.Out) {
 				emit(fmt.Sprintf("c%d", id)) // double release
 			case 1:
 				emit(fmt.Sprintf("c%d", capN+r.Intn(200))) // beyond the capacity
+			case 3:
+				emit(fmt.Sprintf("n%d", []int{1, 1 + r.Intn(63), 63, 64, 65, 64 + r.Intn(200), capN, capN + 1}[r.Intn(8)])) // negative argument
 			case 2:
 				emit("a")
 			}
@@ -1660,7 +1668,14 @@ func crossChoose(pauses []pause, order []int, zip bool) func(ls *lockstep, en []
 			t := inner(ls, en)
 			allReached := true
 			for _, p := range pauses {
-				if enabled[p.t] && ls.at[p.t] != p.y {
+				if !enabled[p.t] {
+					continue
+				}
+				if p.y < 0 { // pause after p.nth scheduling decisions, whatever the yield numbering of the code
+					if ls.nsteps[p.t] < p.nth {
+						allReached = false
+					}
+				} else if ls.at[p.t] != p.y {
 					allReached = false
 				}
 			}
@@ -1728,6 +1743,34 @@ func fixedCross(out *vh.Out) {
 						crossChoose([]pause{{0, yc, 1}, {1, yg, 1}}, []int{2, 1, 0}, false), "conc/cross3", true)
 					emitConcX(out, c.proto, 3, c.pre, [][]string{{cx}, {"g"}, {"g", "a"}}, nil,
 						crossChoose([]pause{{0, yc, 1}, {1, yg, 1}}, []int{2, 0, 1}, false), "conc/cross3", true)
+				}
+			}
+		}
+		// the same windows addressed by "the m-th atomic operation of the goroutine", WHATEVER its yield number (a
+		// variant of the code with more / other atomic operations - summary words, hints, flags - is explored step by
+		// step instead of being reported as an unknown yield sequence): a GetStream parked after m scheduling
+		// decisions, a complete Clear(x) of the same word by another goroutine inside, the GetStream finishes, then
+		// a third goroutine must still be able to acquire every free id; the dual: Clear(x) parked after m decisions,
+		// complete GetStreams inside, Clear finishes, a third goroutine acquires what is left; two GetStreams parked
+		// after m1 / m2 decisions, then both finish (in both orders).
+		maxM := 12
+		if c.proto > 2 {
+			maxM = 4
+		}
+		for m := 1; m <= maxM; m++ {
+			emitConcX(out, c.proto, 3, c.pre, [][]string{{cx}, {"g", "a"}, {"g", "g", "a"}}, nil,
+				crossChoose([]pause{{1, -1, m}}, []int{0, 1, 2}, false), "conc/step-window/get", true)
+			if m <= 8 {
+				emitConcX(out, c.proto, 3, c.pre, [][]string{{cx, "a"}, {"g", "a"}, {"g", "g", "a"}}, nil,
+					crossChoose([]pause{{0, -1, m}}, []int{1, 0, 2}, false), "conc/step-window/clear", true)
+			}
+			if c.proto <= 2 && m <= 8 {
+				for m2 := 1; m2 <= 8; m2++ {
+					for _, o := range [][]int{{0, 1, 2}, {1, 0, 2}} {
+						// first Clear(x) completely (thread 2), then two GetStreams racing for what is free
+						emitConcX(out, c.proto, 3, c.pre, [][]string{{"g", "a"}, {"g", "a"}, {cx}}, nil,
+							crossChoose([]pause{{2, -1, 1 << 20}, {0, -1, m}, {1, -1, m2}}, o, false), "conc/step-window/get2", true)
+					}
 				}
 			}
 		}
@@ -2292,7 +2335,8 @@ func main() {
 		"seq 1 n1 a g a",
 		"seq 2 G5 n63 n64 n65 a s",
 		"seq 3 G70 n1 n2 n128 a g a",
-		"smon 2 g n1 a",
+		"smon 2 g n1 a g n64 c128 c5000 a G125 g n3 a",
+		"smon 4 G70 n1 n63 n64 n32768 c32768 a c70 n70 g a",
 	} {
 		emitCase(out, op, exec(op), "seq/fixed", true)
 	}
